@@ -48,6 +48,14 @@ def rows():
     ops('tracked-set', [], [['TSET', 'X', 3], ['TSET', 'X', 3], ['TADD', 'X', 1]], {'X': ['Tracked', 0]})
     row('task-done', [['SCOPE', 'a', [['DO', 't', [['RETURN', 5]]], ['INSTANT'], ['INSTANT'], ['AWAIT', 't'], ['AWAITDONE', 't'],
                                       ['WAIT', ['DONE', 't']]]]], [((0, 3), 'op'), ((0, 4), 'op'), ((0, 5), 'op')])
+    row('task-done-error', [['SCOPE', 'a', [['DO', 't', [['D', 5]]], ['DO', 'u', [['ETERNITY']], {'volatile': True}], ['INSTANT'],
+                                            ['CANCEL', 't', 'x'], ['INSTANT'], ['INSTANT'],
+                                            ['TRY', [['AWAIT', 't']]], ['TRY', [['AWAIT', 't']]], ['AWAITDONE', 't']]],
+                            ['TRY', [['AWAIT', 'u']]], ['TRY', [['AWAIT', 'u']]]],
+        [((0, 6, 0), 'opx'), ((0, 7, 0), 'opx'), ((0, 8), 'op'), ((1, 0), 'opx'), ((2, 0), 'opx')])
+    row('task-failed', [['TRY', [['SCOPE', 'a', [['DO', 't', [['RAISE', 'KeyError', 'f']]], ['ETERNITY']]]]],
+                        ['TRY', [['AWAIT', 't']]], ['TRY', [['AWAIT', 't']]]],
+        [((1, 0), 'opx'), ((2, 0), 'opx')])
     row('scope-ended', [['SCOPE', 'a', []], ['AWAITSCOPE', 'a']], [((1,), 'op')])
     Q = {'q': 'Queue'}
     ops('queue-put', [], [['PUT', 'q', 1], ['PUT', 'q', 2]], Q)
@@ -112,9 +120,10 @@ def spans(ctx, judged):
     for pc, kind in judged:
         pc = tuple(pc)
         recs = [(i, r) for i, r in enumerate(log) if r[1] == 'actor' and r[2] == pc]
-        if kind == 'op':
+        if kind in ('op', 'opx'):
+            # 'opx': the operation completes by raising the documented exception (awaiting a task that ended with an error)
             s = next((i for i, r in recs if r[0] == 'start'), None)
-            e = next((i for i, r in recs if r[0] == 'end'), None)
+            e = next((i for i, r in recs if r[0] == ('end' if kind == 'op' else 'exc')), None)
             if s is not None and e is not None:
                 out.append(('%s at %r' % (log[s][4], pc), s, e))
             elif s is not None:
